@@ -18,7 +18,7 @@ from vf.xmodel import Schema, Rop, Shadow, Bound
 
 SHARDS = {'quick': 16, 'thorough': 64}
 TIMEOUT = {'quick': 1500, 'thorough': 7200}
-MUST_HIT = ['Call.nothing-after-an-activation-that-returned-a-value', 'Call.same-named-operations-of-two-classes', 'Call.name-differs-in-case-only-function', 'Call.name-differs-in-case-only-external-entity', 'Call.python-function', 'Call.python-bridge', 'Call.python-class-operation',
+MUST_HIT = ['Call.where-clause-callee-with-changing-value', 'Call.nothing-after-an-activation-that-returned-a-value', 'Call.same-named-operations-of-two-classes', 'Call.name-differs-in-case-only-function', 'Call.name-differs-in-case-only-external-entity', 'Call.python-function', 'Call.python-bridge', 'Call.python-class-operation',
             'Call.derived-attribute-early-bare-return', 'Scope.local-named-like-parameter', 'Call.argument-order-observable', 'Call.operand-order-observable', 'Call.loop-condition-with-effect-left-through-break', 'Call.earlier-component-rechecked', 'Call.builtin-external-entity', 'Call.legacy-keyword-bridge', 'Call.legacy-keyword-transform', 'Call.python-instance-operation', 'Call.derived-attribute', 'Call.derived-attribute-outside-state', 'Call.enumerator', 'Call.constant',
             'Call.nested', 'Call.recursive', 'Call.return-inside-while-body', 'Call.return-inside-for-each-body', 'Call.bare-return', 'Call.no-return', 'Call.in-where-clause',
             'Call.in-loop-condition', 'Scope.caller-variable-kept', 'State.compared']
@@ -45,7 +45,7 @@ RULE = ('models with 3-6 functions, an external entity with 2 bridges, a class w
         'hash of (model rows, invocation).')
 ASSUMPTIONS = ['reference call semantics in vf/checks/c15.py + vf/oalsem.py; division and modulo are not generated',
                'constants are read by their bare name (the spelling the interpreter resolves)',
-               'elements called from where clauses, loop conditions and right operands of and / or have no effects on the model']
+               'elements called from loop conditions and right operands of and / or have no effects on the model; an element called from a where clause has no effect on the class that is selected from']
 LEVEL_TEXT = ('Random exploration with a reference evaluator: generated call graphs over all kinds of callable '
               'model elements, invoked from Python and OAL, results and final instance population compared '
               'with an independent evaluation; held on all explored invocations.')
@@ -63,6 +63,7 @@ class Mismatch(Exception):
 
 
 MAYBE = [0]
+WHERE_TICK = [0]
 
 
 class Elem(object):
@@ -148,6 +149,18 @@ class ModelGen(object):
                                                 oalsem.param('b')))]
         pair.text = om.render(om.body(pair.body), self.render_rng, case=self.case)
         self.elems.extend([bump, pair])
+        # a function whose value depends on how often it was called (it counts in an attribute of the first K2 instance):
+        # in a where clause it is evaluated once per candidate, and not at all over an empty population
+        tick = Elem('f', 'tick_fn', INT, [])
+        tick.body = [oalsem.select_from('any', 'o', 'K2'),
+                     oalsem.if_(oalsem.un('not_empty', oalsem.var('o')),
+                                [oalsem.assign(oalsem.attr(oalsem.var('o'), 'der'),
+                                               oalsem.bin_('+', oalsem.attr(oalsem.var('o'), 'der'), oalsem.lit(1))),
+                                 oalsem.return_(oalsem.attr(oalsem.var('o'), 'der'))]),
+                     oalsem.return_(oalsem.lit(0))]
+        tick.text = om.render(om.body(tick.body), self.render_rng, case=self.case)
+        tick.pure = False
+        self.elems.append(tick)
         if self.impure_logic:
             eff = Elem('f', 'effect_fn', BOOL, [])
             eff.body = [oalsem.create('k', 'K'), oalsem.return_(oalsem.lit(True))]
@@ -447,7 +460,17 @@ class ModelGen(object):
                 # a call inside a where clause
                 cands = [x for x in self.before(rank) if x.ret == INT and x.kind != 'iop' and x.pure
                          and [p for p in x.params] == [('n', INT)]]
-                if cands:
+                tick = [x for x in self.before(rank) if x.name == 'tick_fn']
+                if tick and r.random() < 0.4:
+                    # ... whose value changes from one evaluation to the next (the selected class itself is not touched)
+                    WHERE_TICK[0] += 1
+                    where = oalsem.bin_('==', oalsem.attr(oalsem.selected(), 'N'), call_node(tick[0], {}))
+                    stmts.append(oalsem.select_from(r.choice(('any', 'many')), 'sel%d' % rank, 'K', where))
+                    v = self.fresh()
+                    if v not in locals_ or locals_[v] == INT:
+                        stmts.append(oalsem.assign(oalsem.var(v), oalsem.un('cardinality', oalsem.var('sel%d' % rank))))
+                        locals_[v] = INT
+                elif cands:
                     c = r.choice(cands)
                     where = oalsem.bin_(r.choice(('<', '>', '==')),
                                         call_node(c, {'n': oalsem.attr(oalsem.selected(), 'N')}),
@@ -902,3 +925,4 @@ def run(ctx):
     ctx.hit('Scope.local-named-like-parameter', SHADOWED[0])
     for k, n in EARLY.items():
         ctx.hit('Call.return-inside-%s-body' % k, n)
+    ctx.hit('Call.where-clause-callee-with-changing-value', WHERE_TICK[0])
